@@ -1,5 +1,5 @@
 (* C04 — what is set through the API is what a parser of the wire bytes gets back (TCP options). *)
-From LT Require Import Base.Prelude Base.CInt Model.TcpOpts Proofs.TcpOpts.
+From LT Require Import Base.Prelude Base.CInt Model.TcpOpts Proofs.TcpOpts Model.TLV Proofs.TLV.
 Local Open Scope Z_scope.
 
 (* any list of well-formed options — however it was accumulated by additions and removals — goes through the
@@ -18,3 +18,26 @@ Print Assumptions C04_sizes_updated.
 Example C04_nonvacuous : Forall opt_wf [mkopt 3 1 [7]; mkopt 4 0 []] /\
   parse_options 20 (write_options [mkopt 3 1 [7]; mkopt 4 0 []] ++ [0; 0; 0]) = Ok [mkopt 3 1 [7]; mkopt 4 0 []].
 Proof. split; [repeat constructor; cbn; lia|reflexivity]. Qed.
+
+(* ---- the type-length-value option codecs: DHCP, DHCPv6, 802.11 tagged parameters, ICMPv6 neighbour-discovery options,
+   PPPoE tags (Model/TLV.v, one parametric loop pair) ----
+   For every format with 1- or 2-octet codes and lengths, every list of options the format can express -- however it
+   was accumulated by additions and removals -- is read back from the bytes the writer emits as exactly that list:
+   same order, codes and data. *)
+Theorem C04_tlv_options_through_the_wire : forall f os, wf_fmt f -> Forall (wf_opt f) os ->
+  tlv_decode f (tlv_encode f os) = Ok os.
+Proof. exact decode_encode. Qed.
+Print Assumptions C04_tlv_options_through_the_wire.
+
+(* the five formats libtins uses are instances *)
+Theorem C04_tlv_formats : wf_fmt fmt_dhcp /\ wf_fmt fmt_dhcpv6 /\ wf_fmt fmt_dot11 /\ wf_fmt fmt_icmpv6 /\ wf_fmt fmt_pppoe.
+Proof. exact (conj wf_dhcp (conj wf_dhcpv6 (conj wf_dot11 (conj wf_icmpv6 wf_pppoe)))). Qed.
+Print Assumptions C04_tlv_formats.
+
+Example C04_tlv_nonvacuous :
+  Forall (wf_opt fmt_icmpv6) [(1, [0;1;2;3;4;5]); (5, [0;0;0;0;5;220])] /\
+  tlv_encode fmt_icmpv6 [(1, [0;1;2;3;4;5]); (5, [0;0;0;0;5;220])] = [1;1;0;1;2;3;4;5; 5;1;0;0;0;0;5;220] /\
+  Forall (wf_opt fmt_dhcp) [(53, [1]); (61, [1;2;3])] /\
+  tlv_decode fmt_dhcp [53;1;1; 0; 61;3;1;2;3; 255] = Ok [(53, [1]); (0, []); (61, [1;2;3]); (255, [])] /\
+  tlv_encode fmt_pppoe [(513, [7;7])] = [1;2;0;2;7;7].
+Proof. repeat split; try (repeat constructor; cbn; lia); reflexivity. Qed.
